@@ -487,6 +487,7 @@ func c14R7(p *engine.Prog, r *engine.Report, la *engine.LockAnalysis) {
 	}
 	r.Floor("C14-R7", 6, "lazy getters of StateDB / IdentityStateDB")
 	c14R8(p, r)
+	c14R9(p, r)
 	_ = n
 }
 
@@ -590,4 +591,83 @@ func c14R8(p *engine.Prog, r *engine.Report) {
 		}
 	}
 	r.Floor("C14-R8", 3, "put, putToPending, movePendingTxsToExecutable")
+}
+
+// c14R9: the two places that decide whether a sender's first queued transaction is executable —
+// TxPool.put (submission) and movePendingTxsToExecutable (promotion after a block) — use the same
+// tests on epoch and nonce (sibling agreement): a transaction is promoted exactly when it would have
+// been placed in the executable queue had it arrived after the block.
+func c14R9(p *engine.Prog, r *engine.Report) {
+	put := mustFunc(p, r, "core/mempool", "TxPool.put")
+	mv := mustFunc(p, r, "core/mempool", "TxPool.movePendingTxsToExecutable")
+	if put == nil || mv == nil {
+		return
+	}
+	toks := []string{".AccountNonce", "GetNonce(", "GetEpoch(", "StateDB.Epoch(", ".Epoch", "} + 1)", "phi{0|"}
+	side := func(v ssa.Value) string {
+		s := renderVal(v, 0)
+		// element selection (`sorted[i+1]`) says nothing about the test: drop index expressions
+		for {
+			o := strings.Index(s, "[")
+			if o < 0 {
+				break
+			}
+			depth, c := 0, -1
+			for k := o; k < len(s); k++ {
+				if s[k] == '[' {
+					depth++
+				} else if s[k] == ']' {
+					depth--
+					if depth == 0 {
+						c = k
+						break
+					}
+				}
+			}
+			if c < 0 {
+				break
+			}
+			s = s[:o] + s[c+1:]
+		}
+		s = strings.ReplaceAll(s, "StateDB.Epoch(", "\x00GLOBALEPOCH(")
+		var out []string
+		for _, t := range toks {
+			tt := t
+			if t == "StateDB.Epoch(" {
+				tt = "\x00GLOBALEPOCH("
+			}
+			if strings.Contains(s, tt) {
+				out = append(out, t)
+			}
+		}
+		return strings.Join(out, "")
+	}
+	tests := func(f *ssa.Function) []string {
+		var out []string
+		for _, i := range engine.Ifs(f) {
+			cond, neg := stripNot(i.Cond)
+			bo, ok := cond.(*ssa.BinOp)
+			if !ok {
+				continue
+			}
+			x, y := side(bo.X), side(bo.Y)
+			if x == "" || y == "" {
+				continue
+			}
+			op := bo.Op.String()
+			if x > y { // orientation-free
+				x, y = y, x
+				op = map[string]string{"<": ">", ">": "<", "<=": ">=", ">=": "<=", "==": "==", "!=": "!="}[op]
+			}
+			if neg {
+				op = "!" + op
+			}
+			out = append(out, x+" "+op+" "+y)
+		}
+		sort.Strings(out)
+		return dedup(out)
+	}
+	a, b := tests(put), tests(mv)
+	r.Check(len(a) >= 3 && strings.Join(a, " ; ") == strings.Join(b, " ; "), "C14-R9", "put vs movePendingTxsToExecutable|the first queued transaction is executable under the same epoch / nonce tests", p.Pos(mv.Pos()), strings.Join(a, " ; "), "submission decides by {"+strings.Join(a, " ; ")+"}, promotion by {"+strings.Join(b, " ; ")+"}: a transaction can be promoted although it does not continue the committed nonce (or stay pending although it does) — the executable list gets a hole, or a valid transaction is never offered")
+	r.Floor("C14-R9", 1, "sibling tests")
 }
